@@ -332,6 +332,23 @@ def cmd_selftest(a):
                 bad += 1
                 if bad <= 5:
                     print("DIVERGENCE seed", s, v, other.get(s))
+    # informational: how many runs change their history when only the interpreter's string hash seed changes
+    env = dict(os.environ)
+    env["PYTHONHASHSEED"] = hashseed_for(base, 1)
+    out = f"/dev/shm/verif-selftest-{os.getpid()}-hs.pkl"
+    cmd = [sys.executable, os.path.join(VERIF, "run.py"), "_group", a.id, "--tier", "quick", "--group", "0",
+           "--ngroups", "1", "--workers", "4", "--base", str(base), "--runs", str(n),
+           "--deadline", str(time.time() + 3600), "--out", out, "--chunk", "50", "--digests", "--shrink-budget", "0"]
+    hs_diff = None
+    if subprocess.run(cmd, env=env, cwd=VERIF).returncode == 0:
+        with open(out, "rb") as f:
+            r = pickle.load(f)
+        os.unlink(out)
+        other = dict((s, (d, o, k)) for s, d, o, k in r["digests"])
+        hs_diff = sum(1 for s, v in ref.items() if other.get(s) != v)
+        outcome_diff = sum(1 for s, v in ref.items() if other.get(s, (0, 0, 0))[1:] != v[1:])
+        print(f"  (informational) under another PYTHONHASHSEED {hs_diff} of {len(ref)} histories differ, "
+              f"{outcome_diff} outcomes differ")
     print(f"selftest determinism {a.id}: seeds={len(ref)} layouts={len(results)} divergences={bad}")
     return 0 if bad == 0 and len(ref) == n else 2
 
